@@ -240,6 +240,7 @@ def tickMid (k : KState) : Except Crash KState :=
 /-- the bookkeeping of `tick_states` between `tick_idle_timeout` and `tick_held_vkeys` -/
 def tickBook (k : KState) : KState :=
   let k := { k with macroOnPressCancelDuration := k.macroOnPressCancelDuration - 1 }
+  let k := dynTickRecord k   -- [dyn]
   { k with prevKeys := k.curKeys, curKeys := [] }
 
 /-- `Kanata::tick_states` -/
@@ -268,10 +269,12 @@ def handleInputEventV2 (s : KV2) (i : Input) : Except Crash KV2 :=
   let s := { s with k := { s.k with ticksSinceIdle := 0 } }
   match i with
   | .press code =>
+    let s := { s with k := dynRecord s.k true code }   -- [dyn]
     match ({ s with k := cancelMacroOnPress s.k } : KV2).event (.press (0, code)) with
     | .error e => .error (.layout e)
     | .ok s => .ok s
   | .release code =>
+    let s := { s with k := dynRecord s.k false code }   -- [dyn]
     match s.event (.release (0, code)) with
     | .error e => .error (.layout e)
     | .ok s => .ok s
@@ -300,7 +303,7 @@ def canBlockV2 (s : KV2) (msElapsed : Nat) : KV2 × Bool :=
     | some (_, t) => t ≥ k.switchMaxKeyTiming
     | none => true
   let accepts := match s.chv2 with | some c => chv2Accepts c | none => true
-  ({ s with k }, idle && !counting && passed && accepts)
+  ({ s with k }, idle && !counting && passed && accepts && k.dyn.rcd.isNone)   -- [dyn] `!recording_dynamic_macro`
 
 /-- the one path the wrapper does not mirror can only be taken when the one-shot list is full -/
 def KV2.evictRisk (s : KV2) : Bool := s.chv2.isSome && s.k.layout.oneshot.keys.length ≥ 16
